@@ -188,6 +188,23 @@ theorem C09_precompileOptOut_fail_atomic_partial {σ : Type} (I : Impl σ) (s : 
     (h : (run I precompileOptOut s).1 = .error e) : (run I precompileOptOut s).2 = s :=
   run_fail_atomic_assuming I optOutAssumed _ s hinf (by decide) e h
 
+/-- createTask through the AVS precompile (x/avs/keeper/keeper.go: CreateAVSTask): the task-id counter is
+bumped (GetTaskID) only after the owner, voting-power, epoch, existence and operator-list checks; what
+can still fail afterwards is SetTaskInfo's IsHexAddress on the caller's own address and the event -/
+def createTaskAssumed : List String := ["IsHexAddress(task)", "EmitCreateAVSTaskEvent"]
+
+theorem C09_precompileCreateTask_fail_atomic_partial {σ : Type} (I : Impl σ) (s : σ)
+    (hinf : ∀ n, n ∈ createTaskAssumed → ∀ c, I.chk n s c = none) (e : Err)
+    (h : (run I precompileCreateTask s).1 = .error e) : (run I precompileCreateTask s).2 = s :=
+  run_fail_atomic_assuming I createTaskAssumed _ s hinf (by decide) e h
+
+/-- a refusal at any of the checks that precede the task-id allocation leaves no trace (what the
+correspondence run observes for owner / voting-power / epoch refusals) -/
+theorem C09_createTask_early_refusals_clean :
+    ["GetTaskParamsFromInputs", "GetAVSInfoByTaskAddress", "owner contains caller", "GetAVSUSDValue>0", "GetEpochInfo",
+      "IsExistTask", "GetOptInOperators"].all (fun n => dirtyAt precompileCreateTask n false false 0 == some false) = true := by
+  decide
+
 /-- NST deposit/withdraw: atomic only if the oracle-side update cannot refuse -/
 def nstAssumed : List String := lstAssumed ++ ["getDecimal", "exists||amount.IsPositive"]
 
